@@ -46,7 +46,9 @@ func c09Universe() []c09Ver {
 		}
 		vs = append(vs,
 			c09Ver{id, p + "1", 100*time.Millisecond + off, 4 * vU, 0},
-			c09Ver{id, p + "2(extended)", 200*time.Millisecond + off, 8 * vU, 0},
+			// for b the extended version is also still pending (starts in 5 units): expiring a silence that never started
+			// is an update like any other, kept and gossiped with the full retention
+			c09Ver{id, p + "2(extended)", 200*time.Millisecond + off, 8 * vU, map[string]time.Duration{c09IDa: 0, c09IDb: 5 * vU}[id]},
 			c09Ver{id, p + "3(expired)", 300*time.Millisecond + off, 300*time.Millisecond + off, 0},
 			c09Ver{id, p + "old(past retention)", 400*time.Millisecond + off, -10 * vU, -11 * vU},
 		)
